@@ -109,6 +109,17 @@ theorem load_cross_interp (ty₁ ty₂ : Ty) (d : Dat) (rest : List Byte) (h : W
   rw [e]
   exact load_dump ty₂ _ rest hw2
 
+/-- … and the field so loaded **re-dumps to the very bytes it was loaded from**: nothing of the file's origin (which
+    interpolator wrote it) survives in the loaded field, and nothing is lost (harness: `crossredump`) -/
+theorem cross_interp_redump (ty₁ ty₂ : Ty) (d : Dat) (h : WF ty₁ d) (hs : strip ty₁ = strip ty₂) :
+    dump ty₂ (rethin ty₂ (stripD d)) = dump ty₁ d ∧ WF ty₂ (rethin ty₂ (stripD d)) := by
+  have hw := WF_strip ty₁ d h
+  rw [hs] at hw
+  obtain ⟨hw2, hsd⟩ := WF_rethin ty₂ (stripD d) hw
+  refine ⟨?_, hw2⟩
+  unfold dump
+  rw [dumpB_strip ty₁ d h, dumpB_strip ty₂ _ hw2, hsd, hs]
+
 /-- in particular nearest-neighbour ↔ linear: same bytes -/
 theorem dump_interp_transparent (ty : Ty) (d : Dat) : dump (.thin ty) (.thin d) = dump ty d := rfl
 
